@@ -50,6 +50,8 @@ theorem checkFrom_ok (st : St) (cc attr : Nat) (cph : Bytes) : ∀ (hs : List Na
         | authType => simp [hc] at hok
         | badAttributes => simp [hc] at hok
         | pcrChanged => simp [hc] at hok
+        | failLocality => simp [hc] at hok
+        | failPP => simp [hc] at hok
         | noSession => simp [hc] at hok
 
 /-- the whole decision: `ok` implies enough sessions, and every required one passes against the cpHash of the bytes received -/
@@ -169,6 +171,7 @@ theorem checkOne_policy (st : St) (e : Entity) (cc : Nat) (r : Role) (cph : Byte
     (hpw : a.sh ≠ TPM_RS_PW) (hs : st.session a.sh = some s) (hp : s.policy = true)
     (h : checkOne st e cc r cph a = .pass) :
     s.pDigest = e.policy ∧ policyAvail e cc r = true ∧ pcrCurrent st.pcrCounter s = true ∧ (s.pcc = 0 ∨ s.pcc = cc) ∧ (s.pcc = 0 → r = .user) ∧
+    restrictions st s cph = .pass ∧
     (if s.needPw then stripZeros a.hmac = e.auth
      else (s.key ++ (if s.needAuth then e.auth else []) = [] ∧ a.hmac = []) ∨
        a.hmac = hmac sha256 (s.key ++ (if s.needAuth then e.auth else [])) (cph ++ a.nonce ++ s.nonceTPM ++ [UInt8.ofNat a.attrs])) := by
@@ -186,7 +189,10 @@ theorem checkOne_policy (st : St) (e : Entity) (cc : Nat) (r : Role) (cph : Byte
       | pass =>
         obtain ⟨p1, p2, p3⟩ := policyCheck_pass s e cc r hpc
         simp only [hpc] at h
-        refine ⟨p1, h1, hcur, p2, p3, ?_⟩
+        have hres : restrictions st s cph = .pass := by
+          cases hr : restrictions st s cph <;> simp [hr] at h <;> rfl
+        simp only [hres] at h
+        refine ⟨p1, h1, hcur, p2, p3, hres, ?_⟩
         by_cases h5 : s.needPw = true
         · simp only [h5, if_true] at h ⊢
           unfold pwCheck at h
@@ -202,6 +208,8 @@ theorem checkOne_policy (st : St) (e : Entity) (cc : Nat) (r : Role) (cph : Byte
       | authType => simp [hpc] at h
       | badAttributes => simp [hpc] at h
       | pcrChanged => simp [hpc] at h
+      | failLocality => simp [hpc] at h
+      | failPP => simp [hpc] at h
       | noSession => simp [hpc] at h
     · have : policyAvail e cc r = false := by simpa using h1
       simp [this] at h
@@ -248,6 +256,15 @@ theorem policyStep_refused (s : Session) (op : PolicyOp) (h : (policyStep s op).
   | restart => simp [policyStep] at h
   | assert cc args => simp [policyStep] at h
   | update cc name ref => simp [policyStep] at h
+  | physicalPresence => simp [policyStep] at h
+  | locality loc =>
+    cases hm : localityMerge s.locality loc with
+    | none => simp [policyStep, hm]
+    | some m => simp [policyStep, hm] at h
+  | cpHash hh =>
+    by_cases hc : s.cpHash ≠ [] ∧ s.cpHash ≠ hh
+    · simp [policyStep, hc]
+    · simp [policyStep, hc] at h
   | pcr sel values given g =>
     by_cases ht : s.trial = true
     · simp [policyStep, ht] at h
@@ -281,6 +298,9 @@ theorem policyStep_frame (s : Session) (op : PolicyOp) :
   | restart => simp [policyStep]
   | assert cc args => simp [policyStep]
   | update cc name ref => simp [policyStep]
+  | physicalPresence => simp [policyStep]
+  | locality loc => cases hm : localityMerge s.locality loc <;> simp [policyStep, hm]
+  | cpHash hh => by_cases hc : s.cpHash ≠ [] ∧ s.cpHash ≠ hh <;> simp [policyStep, hc]
   | pcr sel values given g =>
     by_cases ht : s.trial = true
     · simp [policyStep, ht]
@@ -567,5 +587,54 @@ theorem policyChain_ok (s : Session) (ops : List (Nat × Bytes)) :
   | cons o os ih => simp only [List.foldl_cons]; rw [ih]; simp [policyStep]
 
 example : (policyStep exSess (.assert 0x16F [1])).1.pDigest = hash sha256 (exSess.pDigest ++ be32 0x16F ++ [1]) := by simp [policyStep]
+
+/-! ### What a policy restricts about the command it authorizes -/
+
+/-- **PolicyLocality is enforced**: a policy session that carries a locality setting authorizes a command only when the
+    command arrives at a locality the setting admits -/
+theorem policy_locality_enforced (st : St) (e : Entity) (cc : Nat) (r : Role) (cph : Bytes) (a : AuthIn) (s : Session)
+    (hpw : a.sh ≠ TPM_RS_PW) (hs : st.session a.sh = some s) (hp : s.policy = true) (hl : s.locality ≠ 0)
+    (h : checkOne st e cc r cph a = .pass) : localityOk s.locality st.cmdLocality = true := by
+  have hr := (checkOne_policy st e cc r cph a s hpw hs hp h).2.2.2.2.2.1
+  unfold restrictions at hr
+  by_cases hk : localityOk s.locality st.cmdLocality = true
+  · exact hk
+  · simp [hl, hk] at hr
+
+/-- **PolicyPhysicalPresence is enforced** -/
+theorem policy_pp_enforced (st : St) (e : Entity) (cc : Nat) (r : Role) (cph : Bytes) (a : AuthIn) (s : Session)
+    (hpw : a.sh ≠ TPM_RS_PW) (hs : st.session a.sh = some s) (hp : s.policy = true) (hpp : s.ppRequired = true)
+    (h : checkOne st e cc r cph a = .pass) : st.pp = true := by
+  have hr := (checkOne_policy st e cc r cph a s hpw hs hp h).2.2.2.2.2.1
+  unfold restrictions at hr
+  by_cases hk : st.pp = true
+  · exact hk
+  · split at hr
+    · exact Check.noConfusion hr
+    · simp [hpp, hk] at hr
+
+/-- **PolicyCpHash is enforced**: the session authorizes exactly the command (code, handle names, parameters) whose cpHash it carries -/
+theorem policy_cpHash_enforced (st : St) (e : Entity) (cc : Nat) (r : Role) (cph : Bytes) (a : AuthIn) (s : Session)
+    (hpw : a.sh ≠ TPM_RS_PW) (hs : st.session a.sh = some s) (hp : s.policy = true) (hc : s.cpHash ≠ [])
+    (h : checkOne st e cc r cph a = .pass) : s.cpHash = cph := by
+  have hr := (checkOne_policy st e cc r cph a s hpw hs hp h).2.2.2.2.2.1
+  unfold restrictions at hr
+  by_cases hk : s.cpHash = cph
+  · exact hk
+  · split at hr
+    · exact Check.noConfusion hr
+    · split at hr
+      · exact Check.noConfusion hr
+      · simp [hc, hk] at hr
+
+/-- PolicyLocality only narrows: whatever an accepted PolicyLocality leaves admitted at the localities 0–4 was admitted by the
+    setting before it and is admitted by the new argument (checked for every bit-map setting and every argument below 64, which includes the extended localities 32…63) -/
+theorem localityMerge_narrows : ∀ prev, prev < 32 → ∀ loc, loc < 64 → ∀ l, l < 5 →
+    (localityMerge prev loc).all (fun m => !localityOk m l || ((prev == 0 || localityOk prev l) && localityOk loc l)) = true := by
+  decide +kernel
+
+/-- a refused PolicyLocality (zero, no locality left, bit map against extended) and an accepted one, concretely -/
+example : localityMerge 0 0 = none ∧ localityMerge 0b00110 0b01000 = none ∧ localityMerge 0b00110 40 = none ∧
+    localityMerge 0b00110 0b00011 = some 0b00010 ∧ localityMerge 0 40 = some 40 ∧ localityMerge 40 41 = none := by decide
 
 end TpmVerif.Props.C04
